@@ -4,7 +4,7 @@ CONSTANTS
   Mods <- Mods0
   AddrMode = "simple"
   MaxTx = 1
-  Fuel = 4
+  Fuel = 5
   Level = 2
   Genesis <- Genesis0
   CallMenu <- EventsCalls
